@@ -91,22 +91,30 @@ func genSeq(r *vlib.Rng, prop string, id int, out *vlib.Out) {
 	mx := g.effMax()
 	nsub := 0
 	var blocked []int
+	// how a task ends: at once (ret / err = plain error / panic) or held inside Run until the
+	// scenario releases it — typically after the lifecycle has moved on (Shutdown with a backlog behind the held
+	// tasks) — and then returning (block), panicking (bpanic) or failing (berr).  The mix is drawn per case: in
+	// the "abnormal" profile most tasks end badly, so that every live worker can meet one in the same phase.
+	mix := []int{12, 6, 7, 6, 4} // ret, err, panic, bpanic, berr; the rest: block
+	if r.Chance(40) {
+		mix = []int{8, 6, 12, 30, 14}
+	}
 	sub := func() {
 		beh := "block"
 		x := r.Intn(100)
-		if x < 12 {
-			beh = "ret"
-		} else if x < 18 {
-			beh = "err" // fails with a plain error (no panic)
-		} else if x < 25 {
-			beh = "panic"
+		for i, b := range []string{"ret", "err", "panic", "bpanic", "berr"} {
+			if x < mix[i] {
+				beh = b
+				break
+			}
+			x -= mix[i]
 		}
 		ms := 30
 		if r.Chance(6) {
 			ms = 0 // the deadline has already passed when Submit is called
 		}
 		out.Line("sub %s %d", beh, ms)
-		if beh == "block" {
+		if beh == "block" || beh == "bpanic" || beh == "berr" {
 			blocked = append(blocked, nsub)
 		}
 		nsub++
@@ -193,6 +201,87 @@ func genSeq(r *vlib.Rng, prop string, id int, out *vlib.Out) {
 	out.Line("end")
 }
 
+// genDrain: seq cases of the shape "the lifecycle moves on while tasks are held, with a backlog behind them".
+// On a started pool `held` tasks that stay inside Run (and end by returning, panicking or failing only when
+// released) occupy the workers, `behind` further tasks of any kind pile up in the queue; then Shutdown (mostly) or
+// ShutdownNow; calls that must fail now; the held tasks are released in random order; waitdone; end.  What the
+// accepted backlog may become is decided by the oracle: executed exactly once, or handed back exactly once —
+// never left behind in a pool that has stopped.
+func genDrain(r *vlib.Rng, prop string, id int, out *vlib.Out) {
+	g := validCfg(r, 20)
+	if g.q == 0 && r.Chance(80) {
+		g.q = vlib.Pick(r, []int{1, 2, 3, 4, 6})
+	}
+	out.Line("new seq prop=%s id=%d %s", prop, id, g)
+	mx := g.effMax()
+	// how held tasks end, drawn per case: one way for all of them, or mixed
+	ends := vlib.Pick(r, [][]string{{"block"}, {"bpanic"}, {"bpanic"}, {"berr"}, {"block", "bpanic", "berr"}, {"bpanic", "berr"}})
+	inst := []string{"ret", "ret", "err", "panic", "panic"}
+	nsub := 0
+	var blocked []int
+	sub := func(beh string) {
+		out.Line("sub %s 30", beh)
+		if beh == "block" || beh == "bpanic" || beh == "berr" {
+			blocked = append(blocked, nsub)
+		}
+		nsub++
+	}
+	pre := 0
+	if r.Chance(30) { // part of the load is already queued when the pool starts (Start sizes the worker set by it)
+		pre = r.Range(1, g.q+1)
+		if pre > g.q {
+			pre = g.q
+		}
+		for i := 0; i < pre; i++ {
+			sub(vlib.Pick(r, ends))
+		}
+	}
+	out.Line("start")
+	held := r.Range(1, mx+1) - pre
+	for i := 0; i < held; i++ {
+		sub(vlib.Pick(r, ends))
+	}
+	behind := 0
+	if g.q > 0 {
+		behind = r.Range(1, g.q)
+	}
+	for i := 0; i < behind && nsub < g.q+mx; i++ {
+		if r.Chance(70) {
+			sub(vlib.Pick(r, inst))
+		} else {
+			sub(vlib.Pick(r, ends))
+		}
+	}
+	if r.Chance(30) {
+		out.Line("snap")
+	}
+	now := r.Chance(20)
+	if now {
+		out.Line("shutdownnow")
+	} else {
+		out.Line("shutdown")
+	}
+	for _, op := range []string{"sub ret 30", "shutdown", "shutdownnow"} {
+		if r.Chance(25) {
+			out.Line("%s", op)
+			if strings.HasPrefix(op, "sub") {
+				nsub++
+			}
+		}
+	}
+	for len(blocked) > 0 {
+		i := r.Intn(len(blocked))
+		out.Line("rel %d", blocked[i])
+		blocked = append(blocked[:i], blocked[i+1:]...)
+	}
+	if !now {
+		out.Line("waitdone")
+	} else {
+		out.Line("snap")
+	}
+	out.Line("end")
+}
+
 func genConc(r *vlib.Rng, prop string, id int, out *vlib.Out) {
 	g := validCfg(r, 45)
 	if r.Chance(5) {
@@ -249,15 +338,20 @@ func genConc(r *vlib.Rng, prop string, id int, out *vlib.Out) {
 		}
 	}
 	fin := vlib.Pick(r, []string{"d", "d", "n"})
-	out.Line("new conc prop=%s id=%d %s seed=%d subs=%d per=%d dl=%d blk=%d pan=%d span=%d plan=%s fin=%s samp=%d",
-		prop, id, g, r.Intn(1000000), subs, per, dl, blk, pan, span, strings.Join(plan, ","), fin, r.Intn(2))
+	// held tasks that end with a panic / a plain error when they are released (often after Shutdown began)
+	hpan, herr := vlib.Pick(r, []int{0, 0, 25, 50, 100}), vlib.Pick(r, []int{0, 0, 0, 25, 50})
+	if hpan+herr > 100 {
+		herr = 100 - hpan
+	}
+	out.Line("new conc prop=%s id=%d %s seed=%d subs=%d per=%d dl=%d blk=%d pan=%d hpan=%d herr=%d span=%d plan=%s fin=%s samp=%d",
+		prop, id, g, r.Intn(1000000), subs, per, dl, blk, pan, hpan, herr, span, strings.Join(plan, ","), fin, r.Intn(2))
 }
 
 func gen(tier, prop string, out *vlib.Out) {
 	r := vlib.NewRng(vlib.Seed())
-	nseq, nconc := 70, 260
+	nseq, nconc, ndrain := 70, 260, 30
 	if tier == "thorough" {
-		nseq, nconc = 700, 3000
+		nseq, nconc, ndrain = 700, 3000, 300
 	}
 	// corpus: the deterministic prefix of the two C12 witness schedules (DESIGN §6 #6, #13), lifecycle
 	// corner cases, constructor corner cases, an unbuffered queue
@@ -368,6 +462,14 @@ func gen(tier, prop string, out *vlib.Out) {
 	}
 	id := 1
 	rs, rc := r.Fork(), r.Fork()
+	rdr := r.Fork()
+	if prop != "C10" {
+		ndrain = 0
+	}
+	for i := 0; i < ndrain; i++ {
+		genDrain(rdr, prop, id, out)
+		id++
+	}
 	for i := 0; i < nseq; i++ {
 		genSeq(rs, prop, id, out)
 		id++
